@@ -372,7 +372,22 @@ def run_singles(unit, agg):
     c04._account(agg, h0, d0, check, trivial_ok=True)
     agg.cells += 1
     n0 = h0.w.frames
-    for i in range(n0):
+    frames = range(n0)
+    if unit.get('only_indexes'):
+        # long transfers: faults only at the data segments with the listed absolute indexes (around the sequence-number
+        # wrap, the last one) and at the frames right next to them (their segment-acks)
+        sel = set()
+        count = {}
+        for rec in h0.w.wire:
+            n, a = txn.decode_lan_frame(rec['octets'])
+            if a is not None and a['type'] in (wire.T_CONF, wire.T_CACK) and a['seg']:
+                k = (rec['src'], a['type'])
+                idx = count.get(k, 0)
+                count[k] = idx + 1
+                if idx in unit['only_indexes']:
+                    sel.update((rec['ord'] - 1, rec['ord'], rec['ord'] + 1))
+        frames = sorted(i for i in sel if 0 <= i < n0)
+    for i in frames:
         for kind, params in SINGLE_FAULTS:
             d1 = copy.deepcopy(d0)
             f = {'ord': i, 'kind': kind}
@@ -501,6 +516,15 @@ def units(tier, seed):
             for (wc, ws) in (((3, 7), (7, 3)) if tier == 'quick' else ((3, 7), (7, 3), (5, 4), (6, 8))):
                 us.append({'kind': 'lengths', 'must': True, 'seed': seed, 'maxApdu': 50, 'dir': dirn, 'win': wc, 'win_s': ws, 'lo': n, 'hi': n + 1,
                            'maxsegs': 1000})
+    # ... and every single fault at the segments around the wrap of such a transfer (repair after the wrap)
+    for segs in ((300,) if tier == 'quick' else (300, 600)):
+        n = payload_len_for_service_len(segs * 50)
+        around = set([254, 255, 256, 257, 258, 259, segs - 1] + ([510, 511, 512, 513, 514] if segs > 520 else []))
+        for dirn in ('rq', 'rs'):
+            rq, rs = (n, 3) if dirn == 'rq' else (3, n)
+            for (wc, ws) in (((1, 1), (2, 2), (3, 3)) if tier == 'quick' else ((1, 1), (2, 2), (3, 3), (4, 7), (8, 8))):
+                us.append({'kind': 'singles', 'must': True, 'seed': seed, 'only_indexes': sorted(around),
+                           'desc': base_desc(seed, 50, rq, rs, wc, ws, maxsegs=1000)})
     nu = 3000 if tier == 'thorough' else 800
     for k in range(nu):
         us.append({'kind': 'explore', 'seed': seed, 'start': k * 40, 'count': 40})
